@@ -11,7 +11,7 @@ LEVEL = "exploration"
 SHARDS = {"quick": 8, "thorough": 16}
 TIMEOUT = {"quick": 900, "thorough": 5400}
 RULE = (
-    "histories of 3-15 operations over {mask, unmask, reveal(plate-id sets: fresh, already observed, repeated, unknown), "
+    "histories of 3-15 operations over {mask, unmask, reveal(plate-id sets: fresh, already observed, repeated, unknown), set_observed of a whole plate in place, "
     "save+load, reveal_plate CLI, extract_screen_metadata CLI} on random screens with unique observation tags, branching (an earlier stage is taken up again) with all earlier stages re-checked for changes after every operation; reference "
     "model = dict plate->bool + immutable row table; after every step mask, rows, plate labels, value bits and the JSON "
     "counters are compared with the model; single-shot cases for the constructor clauses, set_observed and the zero/NaN "
@@ -19,7 +19,7 @@ RULE = (
     "non-trivial = the screen has >=2 plates and the op is not a no-op on the model"
 )
 ASSUMPTIONS = ["revealing a set consisting only of unknown plate ids may either raise ValueError or return the screen unchanged", "refusal of all-zero values is judged only when every plate of the revealed set is all zero"]
-REQUIRED = {"history_steps_checked": {"quick": 2500, "thorough": 40000}, "reveals_checked": {"quick": 600, "thorough": 10000}, "refusals_checked": {"quick": 100, "thorough": 1500}, "constructor_cases": {"quick": 150, "thorough": 2500}, "cli_steps": {"quick": 100, "thorough": 1500}, "earlier_stage_rechecks": {"quick": 10000, "thorough": 150000}, "branches": {"quick": 200, "thorough": 3000}}
+REQUIRED = {"history_steps_checked": {"quick": 2500, "thorough": 40000}, "reveals_checked": {"quick": 600, "thorough": 10000}, "refusals_checked": {"quick": 100, "thorough": 1500}, "constructor_cases": {"quick": 150, "thorough": 2500}, "cli_steps": {"quick": 100, "thorough": 1500}, "earlier_stage_rechecks": {"quick": 10000, "thorough": 150000}, "branches": {"quick": 200, "thorough": 3000}, "in_place_reveals": {"quick": 150, "thorough": 2000}}
 N_HIST = {"quick": 960, "thorough": 9600}
 
 
@@ -89,7 +89,7 @@ def run_shard(rec, tier, seed, shard, nshards):
                     model.plate = dict(stages[bi][1])
                     trace.append(["branch-from-stage", bi])
                     rec.count("branches")
-                op = str(rng.choice(["reveal", "reveal", "reveal", "reveal_cli", "mask", "unmask", "saveload", "meta_cli"], p=[0.3, 0.15, 0.1, 0.1, 0.07, 0.05, 0.13, 0.1]))
+                op = str(rng.choice(["reveal", "reveal", "reveal", "reveal_cli", "mask", "unmask", "saveload", "meta_cli", "set_observed"], p=[0.26, 0.13, 0.08, 0.1, 0.08, 0.05, 0.12, 0.1, 0.08]))
                 name_to_id = dict(zip([str(x) for x in screen.plate_mapping[0]], [int(x) for x in screen.plate_mapping[1]]))
                 id_to_name = {v: k for k, v in name_to_id.items()}
                 w = {"history": trace[-8:], "op": op, "plates": {k: bool(v) for k, v in model.plate.items()}}
@@ -138,6 +138,22 @@ def run_shard(rec, tier, seed, shard, nshards):
                         rec.check(model.n_unobserved() == before_unobs - len(newly), "C12/model/self-check", "model bookkeeping", w)
                         n_un = sum(1 for p in screen.plates if not p.is_observed)
                         rec.check(n_un == before_unobs - len(newly), "C12/reveal/unobserved-count", lambda: "unobserved plates %d -> %d after revealing %d new plates" % (before_unobs, n_un, len(newly)), w)
+                    elif op == "set_observed":
+                        # marks a whole unobserved plate observed IN PLACE with its stored values: the stage itself changes
+                        un = [k_ for k_, v_ in model.plate.items() if not v_]
+                        rec.case(("set_observed", tuple(sorted(model.plate.items()))), nontrivial=bool(un))
+                        if un:
+                            pname = str(rng.choice(un))
+                            sel = np.asarray(screen.plate_names == pname)
+                            trace.append(["set_observed", pname])
+                            screen.set_observed(sel, np.asarray(screen.observations)[sel].copy())
+                            model.plate[pname] = True
+                            rec.count("in_place_reveals")
+                            # this stage was changed on purpose: refresh its snapshot (and those of stages that are the same object)
+                            for si_ in range(len(stages)):
+                                if stages[si_][0] is screen:
+                                    stages[si_] = (screen, dict(model.plate), kit.raw_bytes(np.asarray(screen.observation_mask)), kit.raw_bytes(np.asarray(screen.observations)), kit.array_hash(screen.plate_names))
+                            check_against(rec, screen, model, op, w)
                     elif op == "mask":
                         trace.append(["mask"])
                         rec.case(("mask", tuple(sorted(model.plate.items()))), nontrivial=any(model.plate.values()))
